@@ -713,7 +713,8 @@ theorem selLoop_ok (b total : Nat) (sels : List Sel) (pos : Nat) (buf : List Nat
 theorem readAll_selectors (b total : Nat) (hb : 0 < b) (fuel : Nat) (s : List Sel) (pos : Nat)
     (hfit : pos + sumN s ≤ total) (hfuel : (trueIdx pos (mask s)).length < fuel) :
     ∃ bs, readAll b total fuel (.selectors s) pos = some bs ∧
-      bs.flatten = trueIdx pos (mask s) ∧ ∀ x ∈ bs, 0 < x.length ∧ x.length ≤ b := by
+      bs.flatten = trueIdx pos (mask s) ∧ (∀ x ∈ bs, 0 < x.length ∧ x.length ≤ b) ∧
+      ∀ x ∈ bs.dropLast, x.length = b := by
   induction fuel generalizing s pos with
   | zero => omega
   | succ fuel ih =>
@@ -728,7 +729,7 @@ theorem readAll_selectors (b total : Nat) (hb : 0 < b) (fuel : Nat) (s : List Se
         rcases h6 with h6 | h6
         · rw [h2, hX] at h6; simp at h6; omega
         · exact h6
-      refine ⟨[], rfl, ?_, by simp⟩
+      refine ⟨[], rfl, ?_, by simp, by simp⟩
       rw [← h3, hX, this]; simp
     · simp only [he, Bool.false_eq_true, if_false]
       have hlen : (trueIdx st.pos (mask st.sels)).length < fuel := by
@@ -737,14 +738,29 @@ theorem readAll_selectors (b total : Nat) (hb : 0 < b) (fuel : Nat) (s : List Se
         have hx : 0 < X.length := by
           rw [← h2]; exact List.length_pos_iff.mpr (by simpa using he)
         omega
-      obtain ⟨bs, hb1, hb2, hb3⟩ := ih st.sels st.pos h4 hlen
-      refine ⟨st.rows :: bs, by simp [hb1], ?_, ?_⟩
+      obtain ⟨bs, hb1, hb2, hb3, hb4⟩ := ih st.sels st.pos h4 hlen
+      refine ⟨st.rows :: bs, by simp [hb1], ?_, ?_, ?_⟩
       · simp [hb2, h2, h3]
       · intro x hx
         simp at hx
         rcases hx with rfl | hx
         · exact ⟨List.length_pos_iff.mpr (by simpa using he), h5⟩
         · exact hb3 x hx
+      · cases hbs : bs with
+        | nil => simp
+        | cons y ys =>
+          rw [← hbs, List.dropLast_cons_of_ne_nil (by simp [hbs])]
+          intro x hx
+          simp at hx
+          rcases hx with rfl | hx
+          · rcases h6 with h6 | h6
+            · exact h6
+            · exfalso
+              rw [h6] at hb2
+              have := hb3 y (by simp [hbs])
+              rw [hbs] at hb2; simp at hb2
+              have := hb2.1; simp [this] at *
+          · exact hb4 x hx
 
 /-- the invariants `RowSelection` documents for its selector backing: no zero-length
 selector, consecutive selectors alternate between skip and select -/
